@@ -17,6 +17,7 @@ results = {}
 only = sys.argv[2:] 
 for d in sorted(glob.glob(os.path.join(SRC, "C*", "C*_*"))):
     sid = os.path.basename(d)
+    harmless = "_H" in sid
     if only and sid not in only: continue
     patch = os.path.join(d, "patch.diff")
     if not os.path.exists(patch) or not os.path.exists(os.path.join(d, "demo.py")):
@@ -29,11 +30,11 @@ for d in sorted(glob.glob(os.path.join(SRC, "C*", "C*_*"))):
     rc1, out1 = demo(d)
     base = subprocess.run(["python3", "/verif/tools/run_baseline.py", WT], capture_output=True, text=True)
     subprocess.run(["git", "-C", WT, "checkout", "--", "."]); subprocess.run(["git", "-C", WT, "clean", "-fdq"])
-    ok = rc0 == 0 and rc1 not in (0, -9) and base.returncode == 0
+    ok = rc0 == 0 and (rc1 == 0 if harmless else rc1 not in (0, -9)) and base.returncode == 0
     results[sid] = dict(ok=ok, demo_unchanged_rc=rc0, demo_patched_rc=rc1, baseline_rc=base.returncode, baseline=base.stdout.strip().splitlines()[:1], patched_tail=out1[-300:])
     print(sid, "OK" if ok else "REJECTED", rc0, rc1, base.returncode, flush=True)
     if ok:
-        dst = os.path.join("/verif/seeded", sid)
+        dst = os.path.join("/verif/seeded_harmless" if harmless else "/verif/seeded", sid)
         os.makedirs(dst, exist_ok=True)
         for f in ("patch.diff", "demo.py"):
             shutil.copy(os.path.join(d, f), dst)
